@@ -68,9 +68,11 @@ def load_prop(pid):
 
 def run_one(mod, scenario, want_log=False):
     """Execute a scenario; harness exceptions are classified apart from violations."""
+    from simtz import core
+
     try:
         out = mod.execute(copy.deepcopy(scenario), want_log=want_log)
-    except Exception as e:  # noqa: BLE001
+    except (Exception, core.HarnessError, core.SimCapExceeded) as e:  # noqa: BLE001
         return {'harness_error': ''.join(traceback.format_exception(type(e), e, e.__traceback__))[-4000:]}
     return out
 
@@ -353,6 +355,17 @@ def run_check(pid, tier, base_seed=None, budget_s=None, workers=None, runs=None)
     total = new_agg()
     harness_fail = None
     known_sigs = {e['signature'] for e in load_known(pid)}
+    selftest_note = {}
+    if tier == 'thorough' and os.environ.get('VERIF_THOROUGH_SELFTEST', '1') != '0' and not os.environ.get('VERIF_REPO'):
+        # prove the simulator first: same seed -> same execution, in fresh interpreters under other hash seeds / worker counts
+        from simtz import selftest
+
+        os.environ.setdefault('VERIF_DET_SCALE', '0.3')
+        rc = selftest.determinism([pid])
+        selftest_note['determinism_rc'] = rc
+        if rc != 0:
+            harness_fail = 'determinism self-test failed (see output above)'
+        sys.stdout.flush()
     ctx = multiprocessing.get_context('fork')
     next_start = 0
     with ProcessPoolExecutor(max_workers=workers, mp_context=ctx) as pool:
@@ -438,6 +451,15 @@ def run_check(pid, tier, base_seed=None, budget_s=None, workers=None, runs=None)
         print(f'  detail: {json.dumps(vv.get("detail"), default=str)[:1200]}')
         exit_code = 1
 
+    if tier == 'thorough' and os.environ.get('VERIF_THOROUGH_SELFTEST', '1') != '0' and not os.environ.get('VERIF_REPO') and exit_code == 0 and not harness_fail:
+        # sensitivity: the mutant table of this property (scratch copies under mktemp, removed afterwards)
+        from simtz import selftest
+
+        rc = selftest.mutants([pid])
+        selftest_note['mutants_rc'] = rc
+        if rc != 0:
+            print(f'WARNING: mutant self-test of {pid} had unexpected results (a survivor weakens the evidence; it is not a violation)')
+        sys.stdout.flush()
     wall = time.time() - t0
     ev = build_evidence(pid, mod, tier, base_seed, total, wall, search_wall, workers, reported, known_seen, harness_fail)
     evdir = os.environ.get('VERIF_EVIDENCE_DIR') or os.path.join(boot.VERIF, 'evidence')
